@@ -1,6 +1,9 @@
 package core
 
 import (
+	"io"
+	stdlog "log"
+
 	"github.com/apex/log"
 	"github.com/apex/log/handlers/discard"
 )
@@ -8,4 +11,5 @@ import (
 func init() {
 	// prunner logs through apex/log; the harness observes through hooks and injected collaborators instead
 	log.SetHandler(discard.New())
+	stdlog.SetOutput(io.Discard) // net/http complains about hostile cookie values on the std logger
 }
